@@ -145,13 +145,15 @@ package filesystem
 
 // importFiles: only a filesystem database can be filled from a directory.
 //@ func importFiles returns (err)
-//@   props C18
+//@   props C18 C20
+//@   requires typeis(backend, "*gopki/generator/db/filesystem.FsDb") ==> unboxRef(backend) != 0
 //@   noframe
 //@   ensures @C18 !typeis(backend, "*gopki/generator/db/filesystem.FsDb") ==> err != nil
 
 // Open: the directory is imported and then checked; an inconsistent hierarchy is an error.
 //@ func (*FsDb).Open returns (err)
-//@   props C18
+//@   props C18 C20
+//@   requires fsdb != nil
 //@   noframe
 //@   ensures @C18 err == nil ==> called("gopki/generator/db.IsConsistent", 1) && callres("gopki/generator/db.IsConsistent", 1, 0) && callres("gopki/generator/db/filesystem.importFiles", 1, 0) == nil
 
